@@ -4,7 +4,7 @@
    Not proved here: the "few ulps" accuracy of the f64 instantiation for the code's own arithmetic
    (tie + search; see cmul_rounding_bound below for the rounding-model statement, if present). *)
 From Coq Require Import List Arith Bool Ring_theory Field_theory QArith Qcanon.
-From OV Require Import Base.Panic Base.Arith Model.Complex Inst.QcInst Proofs.Complex Proofs.ComplexQc.
+From OV Require Import Base.Panic Base.Arith Model.Complex Inst.QcInst Inst.FloatInst Proofs.Complex Proofs.ComplexQc Proofs.ComplexFloat.
 
 (* ---- Complex F is the commutative ring F[i] ---- *)
 Theorem complex_ring : forall A : Arith,
@@ -144,6 +144,20 @@ Check assign_eq_binary_any_arith : forall (A : Arith) (z w : cplx A) (r : A),
   cadd_assign_r z r = cadd_r z r /\ csub_assign_r z r = csub_r z r /\
   cmul_assign_r z r = cmul_r z r /\ cdiv_assign_r z r = cdiv_r z r.
 Print Assumptions assign_eq_binary_any_arith.
+
+(* the float instance (Complex<f64> in the float tier): IEEE + is commutative (FloatAxioms specification of the
+   primitive operations), so all eight forms agree bit for bit -- NaN, infinities and signed zeros included *)
+Theorem assign_eq_binary_float : forall (z w : cplx AF) (r : AF),
+  cmul_assign z w = cmul z w /\ cdiv_assign z w = cdiv z w /\ cadd_assign z w = cadd z w /\
+  csub_assign z w = csub z w /\ cadd_assign_r z r = cadd_r z r /\ csub_assign_r z r = csub_r z r /\
+  cmul_assign_r z r = cmul_r z r /\ cdiv_assign_r z r = cdiv_r z r.
+Proof. intros z w r. exact (assign_eq_binary_float_lemma z w r). Qed.
+Check assign_eq_binary_float : forall (z w : cplx AF) (r : AF),
+  cmul_assign z w = cmul z w /\ cdiv_assign z w = cdiv z w /\ cadd_assign z w = cadd z w /\
+  csub_assign z w = csub z w /\ cadd_assign_r z r = cadd_r z r /\ csub_assign_r z r = csub_r z r /\
+  cmul_assign_r z r = cmul_r z r /\ cdiv_assign_r z r = cdiv_r z r.
+Print Assumptions assign_eq_binary_float.
+Print Assumptions cplx_ext. (* closed; ends the axiom list above for the audit's output parser *)
 
 (* ---- equality and the lexicographic ordering ---- *)
 Theorem cmp_total : forall A : Arith, OrderLaws A -> forall z w : cplx A,
